@@ -256,12 +256,18 @@ def run(tier, seed):
 
     vlib.log("[c09] %.0fs: laws done" % (time.time() - t0))
     # ---- non-vacuity: a reversed output of a conforming 24-record lexical sort must be reported
-    cand = [slim(o) for o in obs if o["sub"] == "big" and o["c"]["flags"] == ["f"] and o["exit"] == 0]
+    badset = {idx for idx, _ in bad}
+    cand = [slim(o) for i, o in enumerate(obs)
+            if i not in badset and o["sub"] == "big" and o["c"]["flags"] == ["f"] and o["exit"] == 0]
+    cand2 = [slim(o) for i, o in enumerate(obs)
+             if i not in badset and o["fam"] == "fn" and len(o["out"]) >= 2 and o["exit"] == 0]
 
     def reverse_out(a):
         a["out"] = a["out"][::-1]
-    st = b3.selftest_corruption("SortObs", cand, mutate=reverse_out)
-    st2 = b3.selftest_corruption("SortObs", [slim(o) for o in obs if o["fam"] == "fn" and len(o["out"]) >= 2 and o["exit"] == 0])
+    # (when nothing conforms there is nothing to corrupt - and the violations are reported anyway)
+    skipped = {"ok": bool(bad), "skipped": "no conforming candidate"}
+    st = b3.selftest_corruption("SortObs", cand, mutate=reverse_out) if cand else skipped
+    st2 = b3.selftest_corruption("SortObs", cand2) if cand2 else skipped
     cov["obs_selftest"] = {"reversed_sort_output": st, "dropped_function_element": st2}
     if not (st["ok"] and st2["ok"]):
         raise vlib.Inconclusive("observation self-test failed: %r %r" % (st, st2))
